@@ -97,4 +97,35 @@ def fromDataframe (kk : KeyKind) (skips : Bool) (prof : MCol α → P) (add : P 
 def columnSums (prof : MCol α → P) (add : P → P → P) (m : List (MCol α)) (ms : List (List (MCol α))) : List P :=
   ms.foldl (fun ps m' => List.zipWith add ps (m'.map prof)) (m.map prof)
 
+/-! ## `tools.single_item_cache` in front of `DataFrame.column_names` -/
+
+/-- What the cache in front of `column_names` can see of a frame object: which object it is (`obj`), the rows it holds,
+the names of its columns. -/
+structure FrameObj (ρ ν : Type) where
+  obj : Nat
+  rows : List ρ
+  names : List ν
+
+/-- `last_args == args` for the one argument `self`: Python compares the two frame objects by identity first and then
+with `DataFrame.__eq__` — which the class does not define (`Gen.ProfileGlue.frameEqIsIdentity`), so by identity alone;
+`byIdentity = false` is a class whose `__eq__` compares the rows. -/
+def frameEq {ρ ν : Type} [DecidableEq ρ] (byIdentity : Bool) (a b : FrameObj ρ ν) : Bool :=
+  decide (a.obj = b.obj) || (!byIdentity && decide (a.rows = b.rows))
+
+/-- One call through `single_item_cache` (`tools.py`): the entry `(args, result)` of the last computed call is answered
+again when the arguments compare equal, otherwise the function is called and the entry replaced. -/
+def cachedCall {σ τ : Type} (eq : σ → σ → Bool) (f : σ → τ) (entry : Option (σ × τ)) (a : σ) : τ × Option (σ × τ) :=
+  match entry with
+  | some (a0, r0) => if eq a0 a then (r0, entry) else (f a, some (a, f a))
+  | none => (f a, some (a, f a))
+
+/-- The answers to a sequence of calls through one cache. -/
+def cachedCalls {σ τ : Type} (eq : σ → σ → Bool) (f : σ → τ) : Option (σ × τ) → List σ → List τ
+  | _, [] => []
+  | e, a :: as => (cachedCall eq f e a).1 :: cachedCalls eq f (cachedCall eq f e a).2 as
+
+/-- `column_names` asked of a sequence of frame objects, through the cache when the source has one. -/
+def columnNamesAnswers {ρ ν : Type} [DecidableEq ρ] (cached byIdentity : Bool) (fs : List (FrameObj ρ ν)) : List (List ν) :=
+  if cached then cachedCalls (frameEq byIdentity) (·.names) none fs else fs.map (·.names)
+
 end Profile
